@@ -46,6 +46,10 @@ def oracle(case, out):
         w = None
         if op[0] == 'W':
             w = (int(op[1]), int(op[2]) & 0xFFFF)
+        elif op[0] == 'T':
+            w = (int(op[1]), (prev[int(op[1])] | int(op[2])) & 0xFFFF)
+        elif op[0] == 'U':
+            w = (int(op[1]), prev[int(op[1])] & ~int(op[2]) & 0xFFFF)
         elif spec and spec.startswith('W:'):
             w = (int(spec.split(':')[1]), int(spec.split(':')[2]) & 0xFFFF)
         elif spec and spec.startswith('B:'):
@@ -59,7 +63,7 @@ def oracle(case, out):
         clears = {2: False, 4: False, 7: False}
         if op[0] == 'L' or spec == 'L':
             clears = {2: True, 4: True, 7: True}
-        if w and w[0] in clears and not (spec and spec.startswith('B:')):
+        if w and w[0] in clears and not (spec and spec.startswith('B:')) and op[0] != 'T':
             clears[w[0]] = True
         for i in (2, 4, 7):
             if not clears[i] and (prev[i] & ~regs[i]):
@@ -95,7 +99,7 @@ def streams(tier, rng):
         for b in A:
             seqs.append(reggen.line(2, [a, b]))
     n = 1500 if tier == 'quick' else 40000
-    seqs += [reggen.line(rng.choice([1, 2, 3]), reggen.random_walk(rng, 40)) for _ in range(n)]
+    seqs += [reggen.line(rng.choice([1, 2, 3]), reggen.random_walk(rng, 40), noerr=(k % 5 == 4)) for k in range(n)]
     seqs.append(reggen.line(2, ['W 1 8', 'P 5', 'L', 'W 6 512', 'W 5 512', 'W 1 128']))
     yield {'name': 'histories', 'cases': seqs, 'project': reggen.project, 'oracle': oracle,
            'nontrivial': lambda c, o: c if (' Q' in o or len(set(tuple(s[1][2:]) for s in reggen.parse_out(o))) > 1) else None}
